@@ -78,6 +78,16 @@ def install_common(E, st, Qn):
     def attr(E_, o, name, node):
         if isinstance(o, Obj) and o.cls == 'CurrentTask' and name == 'cancelling':
             return VStub('Task.cancelling', lambda E_, a, k: VInt(z3.If(E.w['cancel_req'], 1, 0)))
+        if isinstance(o, Obj) and o.cls == 'AQueue' and name in ('empty', 'qsize'):
+            # what other tasks and threads have queued is not known to this round
+            if name == 'empty':
+                return VStub('Queue.empty', lambda E_, a, k: VBool(E.fresh('q_empty', B)))
+
+            def qsize(E_, a, k):
+                n = E.fresh('qsize', z3.IntSort())
+                E.assume(n >= 0)
+                return VInt(n)
+            return VStub('Queue.qsize', qsize)
         if isinstance(o, Obj) and o.cls == 'InputSet':
             if name == 'add':
                 def add(E_, a, k):
@@ -364,7 +374,8 @@ def t_process_queue(E):
             def apply(self, E_, args, kwargs, node=None):
                 coro = args[1]
                 ok = isinstance(coro, Obj) and coro.cls == 'Awaitable' and coro.fields['kind'] == 'q_get'
-                E.oblige(Qn + '/timer.timed_read_is_a_read_of_the_queue', z3.BoolVal(ok), props={'C08'})
+                E.oblige(Qn + '/timer.timed_read_is_a_read_of_the_queue', z3.BoolVal(ok), props={'C08', 'C03'},
+                         detail='the time-out may only ever cut the wait for further arguments short, never a load')
                 st['armed'] = st.get('armed', 0) + 1
                 st['armed_this_iteration'] = True
                 st['events'].append('arm')
@@ -455,6 +466,11 @@ def t_process_queue(E):
                 E.oblige(Qn + '/call.every_dequeued_producer_is_loaded_before_the_function_runs',
                          z3.BoolVal(st.get('p0_state') == 'loaded'), props={'C03'})
                 E.oblige(Qn + '/call.loaded_elements_are_offered', z3.Select(E.w['in_set'], st['x0']), props={'C03'})
+            E.oblige(Qn + '/call.function_runs_only_right_after_its_own_quiet_period_or_flush',
+                     z3.BoolVal(bool(st['events']) and st['events'][-1] in ('getting:timeout', 'getting:flush')),
+                     props={'C08'}, detail='every call (a retry too) is preceded by a timed read that expired or was '
+                                           'flushed; observed %r' % (st['events'][-3:],))
+            st['events'].append('run_func')
             st['run_func_calls'] = st.get('run_func_calls', 0) + 1
             r = spec_run_func_outcomes(E, st, Qn, inp, node)
             st['last_run_ok'] = r.concrete()
@@ -782,14 +798,39 @@ def t_small(E):
         t = E.call(fs, [o, coro], {})
         ok = isinstance(t, Obj) and t.cls == 'ATask' and isinstance(t.fields['coro'], Obj) and \
             t.fields['coro'].cls == 'Awaitable' and t.fields['coro'].fields['kind'] == 'wait_for'
-        E.oblige(fs.qualname + '/ensures.task_runs_wait_for_of_the_given_coroutine', z3.BoolVal(bool(ok)), props={'C08'})
+        E.oblige(fs.qualname + '/ensures.task_runs_wait_for_of_the_given_coroutine', z3.BoolVal(bool(ok)),
+                 props={'C08', 'C03'})
         if ok:
             wf = t.fields['coro']
+            E.oblige(fs.qualname + '/ensures.the_timed_coroutine_is_the_one_given', z3.BoolVal(wf.fields['inner'] is coro),
+                     props={'C08', 'C03'})
             E.oblige(fs.qualname + '/ensures.deadline_is_this_objects_timeout',
-                     z3.And(z3.BoolVal(wf.fields['inner'] is coro), _real(wf.fields['timeout']) == o.fields['timeout'].t),
-                     props={'C08'})
+                     _real(wf.fields['timeout']) == o.fields['timeout'].t, props={'C08'})
             E.oblige(fs.qualname + '/ensures.task_belongs_to_the_instances_loop', z3.BoolVal(t.fields['loop'] is o.fields['loop']),
-                     props={'C08'})
+                     props={'C08', 'C03', 'C07'})
+
+        # ---- wait_from_anywhere: the wait runs on the buffer's own loop, through ensure_aw (C17's contract)
+        fwa = method(E, 'wait_from_anywhere')
+        E.cur_func = fwa.qualname
+        seen = {}
+
+        class _Ensure:
+            def on_call(self, E_, fobj, args, kwargs, node):
+                seen['args'] = args
+                return aio.mk_awaitable('ensured')
+
+            def apply(self, E_, args, kwargs, node=None):
+                return self.on_call(E_, None, args, kwargs, node)
+        E.specs[MOD + '.ensure_aw'] = _Ensure()
+        aio.AWAIT['ensured'] = lambda E_, v, node: NONE
+        cflag = E.fresh_bool('cancel')
+        E.await_(E.call(fwa, [o], dict(cancel=cflag)), None)
+        a_ = seen.get('args') or []
+        okw = len(a_) == 2 and isinstance(a_[0], VCoro) and a_[0].func.qualname.endswith('.wait') and \
+            a_[0].kwargs.get('cancel') is cflag and a_[1] is o.fields['loop']
+        E.oblige(fwa.qualname + '/ensures.awaits_wait(cancel)_on_the_buffers_own_loop_through_ensure_aw',
+                 z3.BoolVal(bool(okw)), props={'C07'})
+        E.specs.pop(MOD + '.ensure_aw', None)
 
         # ---- _waiter: forever, one _process_queue at a time, awaited inline (serial calls)
         fw = method(E, '_waiter')
